@@ -553,7 +553,7 @@ static int reb_integrator_ias15_step(struct reb_simulation* r) {
                     integrator_error = maxj/maxa;
                 }
             }else{ // adaptive_mode == 0
-                for(unsigned int k=0;k<N3;k++) {
+                for(unsigned int k=0;k<3*Nreal;k++) { // real particles only, as in the other adaptive modes
                     const double ak  = at[k];
                     const double bk = b.p6[k];
                     const double errork = fabs(bk/ak);
